@@ -645,6 +645,32 @@ WITNESSES = {
 }
 
 
+def theorem_instance(chk, rec, claimed):
+    """inside D02 with the docstring-layer hypotheses true on the real layer, the model predicts view(norm ir): a case where the compiled
+    model says otherwise is a broken obligation (a real difference there is then a disagreement AND an oracle failure)"""
+    m = rec["m_dom"]
+    if not (m.get("in") and m.get("hyp")):
+        return False
+    mp = rec["m_parse"]
+    if claimed and "ok" in mp and view(mp["ok"]) != view(norm_expected(rec["fmt"], rec["irj"])):
+        chk.disagreement("C02 theorem instance: model round trip differs from norm(ir) inside D02 with the hypotheses true",
+                         {"fmt": rec["fmt"], "cfg": rec["cfg"], "ir": rec["irj"]}, view(norm_expected(rec["fmt"], rec["irj"])), view(mp["ok"]))
+    return bool(claimed)
+
+
+# fixed corner interfaces, run on every seed through all four formats and every configuration: descriptions (parameters AND return
+# entry) with the separators of the format-level parsers; a return entry with a default, so that argparse keeps it
+CORNERS = [
+    dict(_ir([("x", {"doc": "Alpha, beta and gamma weights", "typ": "int", "default": _v("int", "5")})],
+             {"doc": "Train, validation and tests dataset splits.", "typ": "List[int]", "default": _v("str", "K")}), doc="Summary line."),
+    dict(_ir([("s", {"doc": "The ratio: kept; see (alpha) - beta", "typ": "str", "default": _v("str", "")}),
+              ("t", {"doc": "The 'alpha' -> \"beta\" map, kept = yes,", "typ": "Optional[int]", "default": _v("int", "0")})],
+             {"doc": "Weights for alpha, beta, gamma, in that order,", "typ": "Optional[str]", "default": _v("str", "K")}), doc=""),
+    dict(_ir([("flag", {"doc": "Kept between runs,", "typ": "bool", "default": _v("bool", "False")})],
+             {"doc": "One of: alpha, beta; or (gamma)", "typ": "List[int]", "default": _v("str", "K")}, typ="self"), doc="Summary line."),
+]
+
+
 def witness_cases():
     return [(f, c, R.json_to_ir(j)) for f, c, j in WITNESSES.values()]
 
@@ -752,8 +778,7 @@ def run(chk: core.Check) -> int:
         for rec in run_cases(chk, wcases[i:i + B], "wrap"):
             claimed = compare(chk, rec, stats, "wrap")
             evaluate(chk, rec, sig_counts)
-            m = rec["m_dom"]
-            ok_thm = bool(m.get("in")) and bool(m.get("hyp")) and claimed
+            ok_thm = theorem_instance(chk, rec, claimed)
             n_wrap_thm += ok_thm
             chk.count(("wrap", rec["fmt"], json.dumps(rec["cfg"], sort_keys=True), json.dumps(rec["irj"], sort_keys=True)), ok_thm)
             if rec["cfg"]["edd"] and rec["cfg"]["style"] == "rest" and rec["fmt"] != "argparse":
@@ -772,10 +797,33 @@ def run(chk: core.Check) -> int:
         "announcement_shapes (ReST, emit_default_doc=True)": {" | ".join(k): v for k, v in sorted(wshape.items())},
         "line-break offsets inside '. Defaults to <value>' that occurred": {k: sorted(v) for k, v in sorted(woffsets.items())},
     }
+    # ---- (6) separators: descriptions of parameters AND return entries with the punctuation the format-level parsers split on
+    #          (commas, colons, semicolons, " - ", parentheses, "->", "=", quotes, a trailing comma); fixed corners first, on every seed
+    pirs = [R.json_to_ir(j) for j in CORNERS] + \
+        [G.gen_ir(rng, punct=0.8, with_return=True if rng.random() < 0.7 else None, ret_default=True if rng.random() < 0.6 else None,
+                  ftype=rng.choice(["static", "static", "self", "cls"])) for _ in range(60 if chk.quick else 1200)]
+    pcases = [(f, c, ir) for ir in pirs for f in R.FORMATS for c in CFGS[f]]
+    n_punct_thm = 0
+    pret = collections.Counter()
+    for i in range(0, len(pcases), B):
+        for rec in run_cases(chk, pcases[i:i + B], "separators"):
+            claimed = compare(chk, rec, stats, "separators")
+            evaluate(chk, rec, sig_counts)
+            ok_thm = theorem_instance(chk, rec, claimed)
+            n_punct_thm += ok_thm
+            chk.count(("separators", rec["fmt"], json.dumps(rec["cfg"], sort_keys=True), json.dumps(rec["irj"], sort_keys=True)), ok_thm)
+            rp = rec["irj"].get("returns")
+            if rec["fmt"] == "argparse" and rp is not None and rp.get("default") is not None:
+                d = rp.get("doc") or ""
+                pret[("argparse return entry kept | %s | commas in its description: %s | %s" %
+                      (rec["cfg"]["style"], min(d.count(","), 3), "theorem applies" if ok_thm else "outside D02 / hypotheses"))] += 1
+    chk.coverage["separator_stream"] = {"interfaces": len(pirs), "fixed corners": len(CORNERS), "cases": len(pcases),
+                                        "cases inside D02 with the docstring-layer hypotheses true": n_punct_thm,
+                                        "descriptions": G.PUNCT_DOCS, "argparse_return_descriptions": dict(sorted(pret.items()))}
     n_dis = sum(v for k, v in stats.items() if k[-1] == "DISAGREE")
     n_agree = sum(v for k, v in stats.items() if k[-1] == "agree" or k[-1].startswith("both raise") or k[-1].startswith("docstring layer raises"))
-    chk.oblige("correspondence: real emitters/parsers = Iface.emit / Top.reparse / Iface.parse on %d generated cases + %d hand-written sources + %d trigger cases + %d wrap-boundary cases + %d witnesses "
-               "(emitted AST, re-parsed AST, parsed IR)" % (n_main, len(srcs), len(tcases), len(wcases), len(WITNESSES)), "correspondence", n_dis == 0,
+    chk.oblige("correspondence: real emitters/parsers = Iface.emit / Top.reparse / Iface.parse on %d generated cases + %d hand-written sources + %d trigger cases + %d wrap-boundary cases + %d separator cases + %d witnesses "
+               "(emitted AST, re-parsed AST, parsed IR)" % (n_main, len(srcs), len(tcases), len(wcases), len(pcases), len(WITNESSES)), "correspondence", n_dis == 0,
                "%d disagreements; %d stage agreements; %d cases fully claimed by the model" % (n_dis, n_agree, n_claimed))
     chk.coverage["correspondence_outcomes"] = {" | ".join(k): v for k, v in sorted(stats.items())}
     chk.coverage["input_distribution"] = {" | ".join(k): v for k, v in sorted(cov.items())}
@@ -787,7 +835,8 @@ def run(chk: core.Check) -> int:
                       "emit_default_doc x (type annotations, kw-only) for functions: real emit -> to_code -> ast.parse -> real parse; oracle = names, order, types, typed defaults, "
                       "descriptions (whitespace / terminal full stop) against the interface under the statement's two normalisations only; non-trivial = inside D02 with the docstring-layer "
                       "hypotheses true on the real layer and every stage claimed by the model; plus a wrap-boundary stream (2-4 parameters with defaults, description lengths 52-99 so that "
-                      "textwrap.fill breaks the line at every position of '. Defaults to <value>') through the same real pipeline and oracle")
+                      "textwrap.fill breaks the line at every position of '. Defaults to <value>') through the same real pipeline and oracle; plus a separator stream (descriptions of parameters and return entries with commas, colons, "
+                      "semicolons, ' - ', parentheses, '->', '=', quotes, trailing comma; 3 fixed corner interfaces on every seed)")
 
 
 def prim_correspondence(chk, rng):
